@@ -16,6 +16,7 @@ from collections import defaultdict, deque
 import z3
 
 from . import theory
+from . import containers   # containers
 from .interp import (Frame, MergeAbort, Obligation, Path, PathInfeasible, SymRaise, _Return,
                      mk_exc)
 from .intrinsics import Intrinsics
@@ -51,6 +52,7 @@ class Contract:
         self.use: list | None = g('use', None)      # restrict which contracts are used modularly (None = all)
         self.no_use: list = g('no_use', [])
         self.note: str = g('note', '')
+        self.may_raise: list = g('may_raise', [])   # exceptions the function may raise under no stated condition
         self.pre = ci.methods.get('pre')
         self.post = ci.methods.get('post')
         self.raises = ci.methods.get('raises')
@@ -215,6 +217,9 @@ class Explorer:
                 cond = P.truthy(cond)
                 if P.branch(cond, f'{short} raises {ename}'):
                     raise SymRaise(mk_exc(ename), f'contract {short}')
+        for ename in c.may_raise:
+            if P.branch(z3.Bool(P.fresh_name(f'{short}#may_raise_{ename}')), f'{short} may raise {ename}'):
+                raise SymRaise(mk_exc(ename), f'contract {short}')
         old = None
         needs_old = c.post is not None and 'old' in [a.arg for a in c.post.node.args.args]
         if needs_old:
@@ -274,6 +279,10 @@ class Explorer:
                 return [cp(x) for x in v]
             if isinstance(v, dict):
                 return {k: cp(x) for k, x in v.items()}
+            if isinstance(v, containers.MUTABLE):   # containers
+                if id(v) not in memo:
+                    memo[id(v)] = v.clone()
+                return memo[id(v)]
             return v
         ns = SObj(None, {k: cp(v) for k, v in bound.items()}, 'old')
         return ns
@@ -363,13 +372,18 @@ class Explorer:
                 outcome = ('return', result)
             except SymRaise as e:
                 outcome = ('raise', e.exc.name, e.exc.bases, e.where)
+            except containers.LoopStepDone:   # containers: invariant-preservation path ends inside the loop
+                res.outcome = 'loop-step'
+                return
         res.outcome = outcome[0] if outcome[0] == 'return' else f'raise {outcome[1]}'
         # --- exceptional behaviour
         rz = self._call_spec(P, c.raises, bound) if c.raises is not None else {}
         if outcome[0] == 'raise':
             ename = outcome[1]
             key = ename if ename in rz else next((b for b in outcome[2] if b in rz), None)
-            if key is None:
+            if key is None and (ename in c.may_raise or any(b in c.may_raise for b in outcome[2])):
+                pass
+            elif key is None:
                 P.oblige(f'{short}#raises[unexpected:{ename}]', 'raises', False, {'where': outcome[3]})
             else:
                 P.oblige(f'{short}#raises[{key}]', 'raises', P.truthy(rz[key]), {'where': outcome[3]})
@@ -399,6 +413,16 @@ class Explorer:
                     cv = cur.fields.get(k)
                     pth = f'{path}.{k}'
                     if pth in c.modifies or any(pth.startswith(m + '.') for m in c.modifies):
+                        continue
+                    if isinstance(cv, containers.SYM) or isinstance(pv, containers.SYM):   # containers
+                        if isinstance(pv, Lazy):
+                            ov = self.overrides.get(pv.name)
+                            g = containers.same_content(P, cv, (ov if ov is not None else pv.typ, pv.name))
+                        elif isinstance(pv, containers.SYM) and isinstance(cv, containers.SYM):
+                            g = containers.equal_content(cv, pv)
+                        else:
+                            g = False
+                        P.oblige(f'{c.short}#frame[{pth}]', 'frame', g)
                         continue
                     if isinstance(pv, Lazy):
                         if isinstance(cv, Lazy):
